@@ -241,7 +241,16 @@ class ThreadWorker(base.Worker):
         for s in self.sockets:
             s.close()
 
-        futures.wait(self.futures, timeout=self.cfg.graceful_timeout)
+        # let the requests in flight finish, and keep telling the arbiter
+        # that we are alive while they do
+        deadline = time.monotonic() + self.cfg.graceful_timeout
+        pending = self.futures
+        while pending:
+            self.notify()
+            left = deadline - time.monotonic()
+            if left <= 0:
+                break
+            pending = futures.wait(pending, timeout=min(wait, left)).not_done
 
     def finish_request(self, fs):
         if fs.cancelled():
